@@ -56,6 +56,7 @@ func main() { drv.Main("service", serviceDriver) }
 
 const (
 	denom     = "stake"
+	denom2    = "btc" // second price / fee denom; needs the exchange rate of the "oracle" module service
 	tick      = 5 * time.Second
 	modName   = "verif"
 	modSigner = "modsigner"
@@ -94,7 +95,9 @@ type env struct {
 	users   []string
 	names   map[string]string // bech32 -> name
 	t0      time.Time
-	off     sdkmath.Int
+	off     map[string]sdkmath.Int
+	rateN   int64 // exchange rate btc -> stake answered by the harness-owned module service: rateN/rateD, 0 = none
+	rateD   int64
 	nextDt  int64             // ticks the next block is ahead of the last one
 	ctxName map[string]string // real ctx id (hex upper) -> "c<k>"
 	ctxReal map[string]string // "c<k>" -> real id
@@ -109,7 +112,7 @@ type env struct {
 	lines     []line
 	last      chain.M
 	cfg       struct {
-		init, taxNum, taxDen, slashNum, slashDen, maxTimeout, minMult, minDep, wait int64
+		init, initBtc, taxNum, taxDen, slashNum, slashDen, maxTimeout, minMult, minDep, wait int64
 	}
 }
 
@@ -125,6 +128,8 @@ func newEnv(fl *drv.Flags) *env {
 		e.users = append(e.users, fmt.Sprintf("u%d", i))
 	}
 	e.cfg.init = fl.CfgInt("init", 100)
+	e.cfg.initBtc = fl.CfgInt("initbtc", 0)
+	e.rateN, e.rateD = fl.CfgInt("raten", 0), fl.CfgInt("rated", 1)
 	e.cfg.taxNum, e.cfg.taxDen = fl.CfgInt("taxnum", 1), fl.CfgInt("taxden", 10)
 	e.cfg.slashNum, e.cfg.slashDen = fl.CfgInt("slashnum", 1), fl.CfgInt("slashden", 2)
 	e.cfg.maxTimeout = fl.CfgInt("maxtimeout", 5)
@@ -134,6 +139,9 @@ func newEnv(fl *drv.Flags) *env {
 	accts := map[string]string{modSigner: "1000000" + modDenom + ",1000btc"}
 	for _, u := range e.users {
 		accts[u] = fmt.Sprintf("%d%s", e.cfg.init, denom)
+		if e.cfg.initBtc > 0 {
+			accts[u] += fmt.Sprintf(",%d%s", e.cfg.initBtc, denom2)
+		}
 	}
 	e.c = chain.New(chain.Options{
 		Accounts: accts,
@@ -166,6 +174,7 @@ func newEnv(fl *drv.Flags) *env {
 	e.names[chain.ModuleAddr(servicetypes.RequestAccName).String()] = "request"
 	e.names[chain.ModuleAddr(servicetypes.FeeCollectorName).String()] = "feepool"
 	e.names[chain.ModuleAddr(authtypes.FeeCollectorName).String()] = "blocked"
+	e.names[servicetypes.OraclePriceServiceProvider.String()] = "oracle"
 
 	// the recording callback module
 	if err := c.K.Service.RegisterResponseCallback(modName, e.onResponse); err != nil {
@@ -174,12 +183,20 @@ func newEnv(fl *drv.Flags) *env {
 	if err := c.K.Service.RegisterStateCallback(modName, e.onState); err != nil {
 		panic(err)
 	}
+	// the exchange-rate module service ("oracle-price") is the harness' own: it
+	// answers with the configured rate, or "feed not found" when there is none
+	c.K.Service.SetModuleService(servicetypes.RegisterModuleName, &servicetypes.ModuleService{
+		ServiceName: servicetypes.OraclePriceServiceName, Provider: servicetypes.OraclePriceServiceProvider,
+		ReuquestService: e.rateService})
 	ctx := c.Ctx()
-	sum := sdkmath.ZeroInt()
-	for _, a := range e.accounts() {
-		sum = sum.Add(e.balOf(ctx, a))
+	e.off = map[string]sdkmath.Int{}
+	for _, d := range denoms {
+		sum := sdkmath.ZeroInt()
+		for _, a := range e.accounts() {
+			sum = sum.Add(e.balD(ctx, a, d))
+		}
+		e.off[d] = c.Supply(ctx, d).Sub(sum)
 	}
-	e.off = c.Supply(ctx, denom).Sub(sum)
 	c.Project = func(ctx sdk.Context) any { return e.observe(ctx) }
 	return e
 }
@@ -206,8 +223,17 @@ func (e *env) addrOf(name string) sdk.AccAddress {
 	return chain.AddrOf("stranger-" + name)
 }
 
-func (e *env) balOf(ctx sdk.Context, a string) sdkmath.Int {
-	return e.c.Bal(ctx, e.addrOf(a), denom)
+var denoms = []string{denom, denom2}
+
+func (e *env) balD(ctx sdk.Context, a, d string) sdkmath.Int {
+	return e.c.Bal(ctx, e.addrOf(a), d)
+}
+
+func (e *env) rateService(ctx sdk.Context, input string) (result, output string) {
+	if e.rateN == 0 {
+		return `{"code":400,"message":"feed not found"}`, ""
+	}
+	return `{"code":200,"message":""}`, fmt.Sprintf(`{"header":{},"body":{"rate":"%s"}}`, decStr(e.rateN, e.rateD).String())
 }
 
 func (e *env) nameOf(bech string) string {
@@ -338,6 +364,16 @@ func (e *env) project(ctx sdk.Context) any {
 		}
 		return sm(cs.AmountOf(denom))
 	}
+	// a fee is at most one coin; an empty fee is reported in the base denom
+	feeOf := func(cs sdk.Coins) (int64, string) {
+		if len(cs) == 0 {
+			return 0, denom
+		}
+		if len(cs) > 1 || (cs[0].Denom != denom && cs[0].Denom != denom2) {
+			inexact++
+		}
+		return sm(cs[0].Amount), cs[0].Denom
+	}
 	store := ctx.KVStore(c.App.UnsafeFindStoreKey(servicetypes.StoreKey))
 	cdc := c.App.AppCodec()
 	iter := func(prefix []byte, f func(key, val []byte)) {
@@ -350,16 +386,11 @@ func (e *env) project(ctx sdk.Context) any {
 
 	defs := chain.M{}
 	k.IterateServiceDefinitions(ctx, func(d servicetypes.ServiceDefinition) bool {
-		if d.Name != servicetypes.OraclePriceServiceName {
-			defs[d.Name] = chain.M{"author": e.nameOf(d.Author)}
-		}
+		defs[d.Name] = chain.M{"author": e.nameOf(d.Author)}
 		return false
 	})
 	bind := chain.M{}
 	k.IterateServiceBindings(ctx, func(b servicetypes.ServiceBinding) bool {
-		if b.ServiceName == servicetypes.OraclePriceServiceName {
-			return false
-		}
 		prov, _ := sdk.AccAddressFromBech32(b.Provider)
 		pr := k.GetPricing(ctx, b.ServiceName, prov)
 		rec := chain.M{
@@ -463,9 +494,10 @@ func (e *env) project(ctx sdk.Context) any {
 		var r servicetypes.CompactRequest
 		cdc.MustUnmarshal(val, &r)
 		_, _, _, idx, _ := servicetypes.SplitRequestID(key)
+		fee, fd := feeOf(r.ServiceFee)
 		reqs[e.reqNameOf(key)] = chain.M{
 			"ctx": e.ctxNameOf(r.RequestContextId), "batch": int64(r.RequestContextBatchCounter),
-			"provider": e.nameOf(r.Provider), "fee": coinsAmt(r.ServiceFee), "reqH": r.RequestHeight, "expH": r.ExpirationHeight,
+			"provider": e.nameOf(r.Provider), "fee": fee, "fdenom": fd, "reqH": r.RequestHeight, "expH": r.ExpirationHeight,
 			"idx": int64(idx),
 		}
 	})
@@ -501,13 +533,18 @@ func (e *env) project(ctx sdk.Context) any {
 		iter(prefix, func(key, val []byte) {
 			var co sdk.Coin
 			cdc.MustUnmarshal(val, &co)
-			if co.Denom != denom || len(key) < 20 {
+			if (co.Denom != denom && co.Denom != denom2) || len(key) < 20 {
 				inexact++
 				return
 			}
 			n := e.nameOfAddr(key[:20])
-			prev, _ := out[n].(int64)
-			out[n] = prev + sm(co.Amount)
+			row, _ := out[n].(chain.M)
+			if row == nil {
+				row = chain.M{}
+				out[n] = row
+			}
+			prev, _ := row[co.Denom].(int64)
+			row[co.Denom] = prev + sm(co.Amount)
 		})
 		return out
 	}
@@ -534,7 +571,15 @@ func (e *env) project(ctx sdk.Context) any {
 	}
 	bal := chain.M{}
 	for _, a := range e.accounts() {
-		bal[a] = chain.M{denom: sm(e.balOf(ctx, a))}
+		row := chain.M{}
+		for _, d := range denoms {
+			row[d] = sm(e.balD(ctx, a, d))
+		}
+		bal[a] = row
+	}
+	supply := chain.M{}
+	for _, d := range denoms {
+		supply[d] = sm(c.Supply(ctx, d).Sub(e.off[d]))
 	}
 	p := k.GetParams(ctx)
 	params := chain.M{
@@ -560,7 +605,7 @@ func (e *env) project(ctx sdk.Context) any {
 		"earned": earned, "ownerEarned": ownerEarned,
 		"newQ": queue(servicetypes.NewRequestBatchKey), "expQ": queue(servicetypes.ExpiredRequestBatchKey),
 		"newH": marks(servicetypes.NewRequestBatchHeightKey), "expH": marks(servicetypes.ExpiredRequestBatchHeightKey),
-		"bal": bal, "supply": chain.M{denom: sm(c.Supply(ctx, denom).Sub(e.off))},
+		"bal": bal, "supply": supply, "rate": chain.M{"n": e.rateN, "d": e.rateD},
 		"inexact": int64(inexact),
 	}
 }
@@ -572,7 +617,7 @@ func svcEvent(name, who string) chain.M {
 		"amt": int64(0), "price": int64(0), "tStart": int64(0), "tEnd": int64(0), "tDisc": int64(4),
 		"vVol": int64(0), "vDisc": int64(4), "setp": false, "pdenom": denom, "qos": int64(0), "timeout": int64(0),
 		"repeated": false, "freq": int64(0), "total": int64(0), "thr": int64(0), "paused0": false,
-		"okres": true, "to": "", "dt": int64(1), "rank": int64(0),
+		"okres": true, "to": "", "dt": int64(1), "rank": int64(0), "rn": int64(0), "rd": int64(1),
 		"ok": true, "panic": false, "halt": false, "cbs": []any{}, "scbs": []any{}}
 }
 
@@ -603,7 +648,7 @@ func norm(ev chain.M) chain.M {
 	for _, k := range []string{"amt", "price", "tStart", "tEnd", "vVol", "qos", "timeout", "freq", "total", "thr", "rank"} {
 		o[k] = chain.Num(ev, k)
 	}
-	for _, k := range []string{"tDisc", "vDisc", "dt"} {
+	for _, k := range []string{"tDisc", "vDisc", "dt", "rn", "rd"} {
 		if _, ok := ev[k]; ok {
 			o[k] = chain.Num(ev, k)
 		}
@@ -685,7 +730,8 @@ func (e *env) addrs(names []string) []string {
 	return out
 }
 
-var modEvents = map[string]bool{"ModCall": true, "ModPause": true, "ModStart": true, "ModKill": true, "ModUpdate": true}
+var modEvents = map[string]bool{"ModCall": true, "ModPause": true, "ModStart": true, "ModKill": true, "ModUpdate": true,
+	"ModWithdrawAll": true, "SetRate": true}
 
 // msgOf maps an abstract event to a real message; nil for module / block events.
 func (e *env) msgOf(ev chain.M) sdk.Msg {
@@ -714,7 +760,11 @@ func (e *env) msgOf(ev chain.M) sdk.Msg {
 	case "RefundDeposit":
 		return &servicetypes.MsgRefundServiceDeposit{ServiceName: svc, Provider: prov, Owner: who}
 	case "Call":
-		return &servicetypes.MsgCallService{ServiceName: svc, Providers: e.addrs(strList(ev, "provs")), Consumer: who, Input: input,
+		in := input
+		if svc == servicetypes.OraclePriceServiceName {
+			in = `{"header":{},"body":{"pair":"btc-stake"}}`
+		}
+		return &servicetypes.MsgCallService{ServiceName: svc, Providers: e.addrs(strList(ev, "provs")), Consumer: who, Input: in,
 			ServiceFeeCap: coinsOf(chain.Num(ev, "amt")), Timeout: chain.Num(ev, "timeout"), Repeated: chain.Bool(ev, "repeated"),
 			RepeatedFrequency: uint64(chain.Num(ev, "freq")), RepeatedTotal: chain.Num(ev, "total")}
 	case "Respond":
@@ -778,6 +828,17 @@ func (e *env) runMod(ctx sdk.Context, a *modAction) {
 	case "ModUpdate":
 		err = k.UpdateRequestContext(cctx, id, provs, uint32(chain.Num(ev, "thr")), coinsOf(chain.Num(ev, "amt")),
 			chain.Num(ev, "timeout"), uint64(chain.Num(ev, "freq")), chain.Num(ev, "total"), who)
+	case "ModWithdrawAll":
+		// the keeper's "everything of this owner" branch (no message reaches it)
+		err = k.WithdrawEarnedFees(cctx, who, nil)
+	case "SetRate":
+		// environment: what the exchange-rate module service answers from now on
+		n, d := chain.Num(ev, "rn"), chain.Num(ev, "rd")
+		if n < 0 || (d != 1 && d != 2 && d != 4) {
+			err = fmt.Errorf("bad rate")
+		} else {
+			e.rateN, e.rateD = n, d
+		}
 	default:
 		err = fmt.Errorf("unknown module event")
 	}
